@@ -29,6 +29,8 @@ type logLine struct {
 
 func renderLogLine(ln logLine, pos int) string {
 	prof := strings.Join(ln.Prof, "")
+	twin := strings.HasSuffix(ln.Cid, "t")
+	ln.Cid = strings.TrimSuffix(ln.Cid, "t")
 	marker := "mk_" + ln.Cid + "_" + markerTail
 	head := fmt.Sprintf("type=AVC msg=audit(1700000%03d.%03d:%d): ", pos, pos, 100+pos)
 	switch ln.Cls {
@@ -37,7 +39,11 @@ func renderLogLine(ln logLine, pos int) string {
 		if ln.Noise {
 			name = "/usr/share/locale/fr/LC_MESSAGES/" + ln.Cid + ".mo"
 		}
-		return head + fmt.Sprintf(`apparmor="%s" operation="open" class="file" profile="%s" name="%s" pid=%d comm="%s" requested_mask="r" denied_mask="r" fsuid=1000 ouid=1000`, ln.Cls, prof, name, 2000+pos, marker)
+		ids := "fsuid=1000 ouid=1000"
+		if twin {
+			ids = `fsuid=1001 ouid=1001 hostname=other`
+		}
+		return head + fmt.Sprintf(`apparmor="%s" operation="open" class="file" profile="%s" name="%s" pid=%d comm="%s" requested_mask="r" denied_mask="r" %s`, ln.Cls, prof, name, 2000+pos, marker, ids)
 	case "long":
 		name := "/vm/" + ln.Cid + "/" + strings.Repeat("verylongcomponent/", 4000)
 		return head + fmt.Sprintf(`apparmor="DENIED" operation="open" class="file" profile="%s" name="%s" pid=%d comm="%s" requested_mask="r" denied_mask="r" fsuid=1000 ouid=1000`, prof, name, 2000+pos, marker)
@@ -210,13 +216,18 @@ func checkC14(e *Env, r *Report) {
 				stable = false
 			}
 		}
-		// first id of each content identity
+		// first id of each content identity; a marker can be shared by twins (records that differ in fields
+		// the display does not show): the k-th printed line of a marker is the k-th such identity
 		first := map[string]int{}
+		cands := map[string][]int{}
 		for _, ln := range j.log {
 			if _, ok := first[ln.Cid]; !ok {
 				first[ln.Cid] = ln.ID
+				base := strings.TrimSuffix(ln.Cid, "t")
+				cands[base] = append(cands[base], ln.ID)
 			}
 		}
+		seenMk := map[string]int{}
 		out := []int{}
 		re := reMarker
 		if j.mode == "rules" {
@@ -225,11 +236,21 @@ func checkC14(e *Env, r *Report) {
 		garbled := []int{}
 		for _, line := range strings.Split(r1.Stdout, "\n") {
 			if m := re.FindStringSubmatch(line); m != nil {
-				out = append(out, first[m[1]])
+				k := seenMk[m[1]]
+				seenMk[m[1]]++
+				switch {
+				case j.mode == "rules":
+					out = append(out, cands[m[1]]...) // twins give the same rule
+				case k < len(cands[m[1]]):
+					out = append(out, cands[m[1]][k])
+				default:
+					out = append(out, -1)
+				}
 				// the printed line carries the record's own text, not a re-interpretation of it
 				if j.mode != "rules" && !strings.Contains(line, "mk_"+m[1]+"_"+markerTail) {
 					garbled = append(garbled, first[m[1]])
 				}
+				_ = first
 			}
 		}
 		fmtName := "audit"
